@@ -454,26 +454,66 @@ def rbinom(n, size, prob, seed=None):
         return rvs(n=size, p=prob, size=n)[0]
     
 ##### Negitive binomial
-def dnbinom(x, size, prob, mu, log=True):
+def _nbinom_prob(size, prob, mu):
+    '''
+    Success probability of the (size, prob) form; the mean/size form of R
+    has prob = size/(size + mu).
+    '''
+    if mu is None and prob is None:
+        raise Exception("Neither 'prob' or 'mu' were specified")
+    if mu is not None:
+        if prob is not None:
+            raise Exception("'prob' and 'mu' both specified")
+        return size/(size + mu)
+    return prob
+
+def pnbinom(q, size, prob=None, mu=None, lower_tail=True, log=False):
     '''
     See
     https://stat.ethz.ch/R-manual/R-devel/library/stats/html/NegBinomial.html
     '''
-    
-def pnbinom(q, size, prob, mu, lower_tail = True, log=True):
+    prob = _nbinom_prob(size, prob, mu)
+    if lower_tail:
+        if log:
+            return st.nbinom.logcdf(q, n=size, p=prob)
+        else:
+            return st.nbinom.cdf(q, n=size, p=prob)
+    else:
+        if log:
+            return st.nbinom.logsf(q, n=size, p=prob)
+        else:
+            return st.nbinom.sf(q, n=size, p=prob)
+
+def qnbinom(p, size, prob=None, mu=None, lower_tail=True, log=False):
     '''
     See
     https://stat.ethz.ch/R-manual/R-devel/library/stats/html/NegBinomial.html
     '''
-    
-def qnbinom(p, size, prob, mu, lower_tail = True, log=True):
+    prob = _nbinom_prob(size, prob, mu)
+    if log:
+        p = np.exp(p)
+    if lower_tail:
+        return st.nbinom.ppf(p, n=size, p=prob)
+    else:
+        return st.nbinom.isf(p, n=size, p=prob)
+
+def rnbinom(n, size, prob=None, mu=None, seed=None):
     '''
     See
     https://stat.ethz.ch/R-manual/R-devel/library/stats/html/NegBinomial.html
+
+    @param seed see :func:`rexp`
     '''
-    
-def rnbinom(n, size, prob, mu, seed=None):
-    pass
+    prob = _nbinom_prob(size, prob, mu)
+    if seed is None:
+        rvs = np.random.negative_binomial
+    else:
+        rvs = test_seed(seed).negative_binomial
+
+    if n > 1:
+        return rvs(n=size, p=prob, size=n)
+    else:
+        return rvs(n=size, p=prob, size=n)[0]
 
 
 ##### Negative Binomial distribution
